@@ -7,6 +7,7 @@ mod gensrc;
 mod lane_c;
 mod lane_t;
 mod lanes;
+mod miri;
 mod model;
 mod ops;
 mod prng;
